@@ -324,4 +324,27 @@ def build_pool(name, rng, size=40, respell=0.3, need_hash=True):
                     p.insert(s2, v2)
                 if alts >= 2:
                     break
+    # top-up: the neighbours above take room in the pool; at least a third of its classes (up to `size`/3) get a second
+    # spelling of the same version if the scheme has one (what `=`, hashing and de-duplication must treat as one)
+    want = max(2, min(size, p.n()) // 3)
+    have = sum(1 for cl in p.classes if len(cl) >= 2)
+    order = list(range(p.n()))
+    rng.shuffle(order)
+    for i in order:
+        if have >= want:
+            break
+        if i >= p.n() or len(p.classes[i]) >= 2:
+            continue
+        s0, v0 = p.classes[i][0]
+        for attempt in range(6):
+            try:
+                s2 = zero_pad(s0, rng) if attempt == 0 else S.RESPELL[name](s0, rng)
+                if s2 == s0:
+                    continue
+                v2 = S.make(name, s2)
+                if bool(v2 == v0) and p.insert(s2, v2) and len(p.classes[min(i, p.n() - 1)]) >= 2:
+                    have += 1
+                    break
+            except Exception:  # noqa: BLE001
+                continue
     return p
